@@ -494,3 +494,34 @@ Proof.
   split; [exact pf_content_isman|].
   vm_compute. repeat split; auto.
 Qed.
+
+(* ---- fuel: every GC / reopen step completes (per step; audit F8) ---- *)
+Lemma load_fuel_ok content sok U fuel roots :
+  (forall u, In u U -> forall c, In c (content u) -> In c U) ->
+  1 + pot content U [] < fuel -> (forall r, In r roots -> In r U) ->
+  snd (load content sok fuel roots) = true.
+Proof. intros Hc Hf Hr. unfold load. apply (load_from_fuel content sok U fuel Hc Hf roots empty_graph Hr). Qed.
+
+Lemma store_step_terminates content isman U fuel fixed save_late reroot s o :
+  (forall u, In u U -> forall c, In c (content u) -> In c U) ->
+  1 + pot content U [] < fuel ->
+  (forall x, In x (o_tagged s) \/ In x (o_dtagged s) \/ In x (o_dbydigest s) -> In x U) ->
+  match o with PGC kept => forall x, In x kept -> In x U | PForeign _ => False | _ => True end ->
+  snd (ostep fixed save_late reroot content isman fuel s o) = true.
+Proof.
+  intros Hc Hf He Ho. destruct o; cbn [ostep].
+  - destruct (smem n (o_blobs s)); [reflexivity|]. destruct (isman n); reflexivity.
+  - destruct (smem n (o_blobs s)); reflexivity.
+  - reflexivity.
+  - destruct (remove (o_graph s) n) as [g' dang].
+    match goal with |- snd (if ?c then _ else _) = true => destruct c; reflexivity end.
+  - assert (snd (load content (o_sok isman s) fuel (o_tagged s ++ kept)) = true) as H.
+    { apply (load_fuel_ok content _ U); auto. intros r Hr. apply in_app_iff in Hr. destruct Hr; auto. }
+    destruct (load content (o_sok isman s) fuel (o_tagged s ++ kept)) as [g' ok]. simpl in H. subst ok.
+    destruct save_late; reflexivity.
+  - assert (snd (load content (o_sok isman s) fuel (o_dtagged s ++ o_dbydigest s)) = true) as H.
+    { apply (load_fuel_ok content _ U); auto. intros r Hr. apply in_app_iff in Hr. destruct Hr; auto. }
+    destruct (load content (o_sok isman s) fuel (o_dtagged s ++ o_dbydigest s)) as [g' ok]. simpl in H. subst ok.
+    reflexivity.
+  - destruct Ho.
+Qed.
